@@ -296,6 +296,19 @@ def compileRaw (e : Env) (next : Nat) (ws : List String) : R :=
       let (b, h, m3) := mkLift2 { next := next, ops := acq1 ++ acq2 } ua ub
       .ops (b.emit [.dec ua, .dec ub]).ops (e.put x (.cell h m3))
     | _, _, _ => .skip
+  | ["lift2d", x, p, q, c, _] =>
+    -- lift2 with a function that captures cell `c` and declares it: the node that holds the function (the map after the
+    -- merge) has one more edge, to `c`'s hold node
+    match e.find x, (e.find p).bind updRef, (e.find q).bind updRef, (e.find c).bind cellRef with
+    | none, some (acq1, ua), some (acq2, ub), some (acq3, hc, _) =>
+      let b : B := { next := next, ops := acq1 ++ acq2 ++ acq3 }
+      let (b, m1) := b.node "Stream::map" [ua, ua]
+      let (b, m2) := b.node "Stream::map" [ub, ub]
+      let (b, mg) := b.node "Stream::merge" [m1, m1, m2, m2]
+      let (b, m3) := b.node "Stream::map" [mg, mg, hc]
+      let (b, h) := b.node "Cell::hold" [m3, m3, m3]
+      .ops (b.emit [.dec m1, .dec m2, .dec mg, .dec m3, .dec ua, .dec ub, .dec hc]).ops (e.put x (.cell h m3))
+    | _, _, _, _ => .skip
   | "liftn" :: x :: cs =>
     -- lift3..6 are built from lift2/lift3/lift4 on tuples (`cell.rs`); an intermediate cell is a temporary of the
     -- call that made it and is dropped when that call returns
@@ -445,7 +458,7 @@ def compileRaw (e : Env) (next : Nat) (ws : List String) : R :=
     transaction is open, a collection follows the construction -/
 def ctorWithTxn : List String :=
   ["ssink", "never", "csink", "map", "mapto", "filter", "once", "filteropt", "merge", "orelse",
-   "snapshot", "snapshot1", "snapshotn", "gate", "hold", "holdlazy", "value", "mapc", "lift2", "accum", "collect", "accumlazy", "collectlazy",
+   "snapshot", "snapshot1", "snapshotn", "gate", "hold", "holdlazy", "value", "mapc", "lift2", "lift2d", "accum", "collect", "accumlazy", "collectlazy",
    "defer", "split", "sloop", "cloop", "route", "listen", "listenweak"]
 
 def compile (e : Env) (next : Nat) (ws : List String) : R :=
